@@ -12,6 +12,7 @@
   Composition (`metric_scale`, `metric_sum_blocks`, `metric_chain`, `hamiltonian_metric`, …) is in the second half.
 -/
 import NiftyVerif.Lemmas.LikelihoodScalar
+import NiftyVerif.Lemmas.LikelihoodLists
 import Mathlib.Data.Matrix.ColumnRowPartitioned
 
 namespace NiftyVerif.C11
@@ -507,6 +508,43 @@ theorem hamiltonian_metric [Fintype m] [Fintype n] [DecidableEq n] (T : Matrix m
   rw [metric_sum_blocks, transpose_one, Matrix.mul_one]
 
 end Matrices
+
+
+/-! ## the executable composition model (`Node.eval`, what the driver runs) -/
+
+/-- For every well-formed likelihood tree — any nesting of `lh @ linear`, `lh @ point-wise`, `c·lh`, `lh₁ + lh₂` over the leaf
+    energies (non-negative inverse variances; the full-Fisher variable-covariance leaf excluded, see `varcov_expected_pullback`) —
+    every size and every position: the metric is the pull-back of the identity through the transformation, `M = JᴴJ`. -/
+theorem tree_metric_is_pullback (e : Node ℝ) (x : Vec ℝ) (h : e.WF x.length) :
+    (e.eval x).tjac.length = (e.eval x).t ∧
+    ∀ i j, i < x.length → j < x.length →
+      at2 (e.eval x).met i j = ∑ t ∈ Finset.range (e.eval x).t, at2 (e.eval x).tjac t i * at2 (e.eval x).tjac t j := by
+  have hp := eval_Pull e x h
+  have hn := eval_n e x h
+  exact ⟨hp.1, fun i j hi hj => hp.2 i j (hn ▸ hi) (hn ▸ hj)⟩
+
+example : (Node.add (Node.scale 2 (Node.leaf (.poisson [1, 2])))
+    (Node.ptw [.exp, .exp] (Node.leaf (.student [3, 3])))).WF ([1, 2] : Vec ℝ).length := by
+  simp [Node.WF, Leaf.dim, Leaf.Good]
+
+/-- `StandardHamiltonian`: metric = likelihood metric + identity, entry by entry -/
+theorem tree_hamiltonian_metric (e : Node ℝ) (x : Vec ℝ) (i j : Nat) (hi : i < x.length) (hj : j < x.length) :
+    at2 ((Node.ham e).eval x).met i j = at2 (e.eval x).met i j + (if i = j then 1 else 0) := by
+  show at2 (tab2 x.length x.length fun i j => at2 (e.eval x).met i j + (if i = j then 1 else 0)) i j = _
+  rw [at2_tab2, if_pos ⟨hi, hj⟩]
+
+/-- the list model's Poisson leaf has the diagonal Fisher metric `1/x` (ties `Leaf.eval` to the scalar theorem) -/
+theorem leaf_metric_poisson (d x : Vec ℝ) (i j : Nat) (hi : i < d.length) (hj : j < d.length) (hx : 0 < at1 x i) :
+    at2 ((Leaf.poisson d).eval x).met i j = if i = j then 1 / at1 x i else 0 := by
+  show at2 (diagM d.length fun j => poissonMet (at1 x j)) i j = _
+  rw [at2_diagM, if_pos ⟨hi, hj⟩, pullback_eq_metric_poisson _ hx]
+
+/-- the list model's Bernoulli leaf has the diagonal Fisher metric `1/(x(1-x))` -/
+theorem leaf_metric_bernoulli (d x : Vec ℝ) (i j : Nat) (hi : i < d.length) (hj : j < d.length)
+    (h0 : 0 < at1 x i) (h1 : at1 x i < 1) :
+    at2 ((Leaf.bernoulli d).eval x).met i j = if i = j then 1 / (at1 x i * (1 - at1 x i)) else 0 := by
+  show at2 (diagM d.length fun j => bernoulliMet (at1 x j)) i j = _
+  rw [at2_diagM, if_pos ⟨hi, hj⟩, pullback_eq_metric_bernoulli _ h0 h1]
 
 
 end NiftyVerif.C11
